@@ -51,7 +51,7 @@ def length(ip, v):
     if isinstance(v, PySet):
         return len(v.items)
     if isinstance(v, SymSeq):
-        return ops.mk(z3.Length(v.t), 'int')
+        return ops.concretize(ops.mk(v.n, 'int'))
     if isinstance(v, SymMap):
         if v.size is None:
             raise Unsupported('len() of a symbolic dict without a size ghost')
@@ -261,7 +261,7 @@ def b_list(ip, it=None):
     if isinstance(it, SymMap):
         return symmap_keys(ip, it)
     if isinstance(it, SymSeq):
-        return SymSeq(it.t, it.elem, it.facts)
+        return it.copy()
     if isinstance(it, DictView):
         return dictview_list(ip, it)
     return PyList(ip.iter_concrete(it))
@@ -546,7 +546,9 @@ def contains(ip, container, item):
     if isinstance(container, SymSeq):
         if not key_compatible(item, container.elem):
             return False
-        return ops.sbool(z3.Contains(container.t, z3.Unit(ip.unwrap(item, container.elem))))
+        j = z3.Int('j!in')
+        x = ip.unwrap(item, container.elem)
+        return ops.sbool(z3.Exists([j], z3.And(j >= 0, j < container.n, z3.Select(container.arr, j) == x)))
     if isinstance(container, (str, bytes)) and isinstance(item, (str, bytes)) and type(container) == type(item):
         return item in container
     if isinstance(container, str) and isinstance(item, Sym) and item.ty == 'str':
@@ -613,14 +615,13 @@ def getitem(ip, v, k):
         return symmap_value(ip, v, kt)
     if isinstance(v, SymSeq):
         if isinstance(k, slice):
-            lo, hi = ops.slice_bounds(k.start, k.stop, z3.Length(v.t))
-            return SymSeq(ops.seq_slice_term(v.t, lo, hi, v.t.sort()), v.elem)
-        n = z3.Length(v.t)
+            return symseq_slice(ip, v, k)
+        n = v.n
         if ops.pytype(k) not in ('int', 'bool'):
             ctx.raise_exc('TypeError', 'list indices must be integers')
         i = ops.norm_index(ops.term(k, 'int'), n, ctx)
         ctx.raise_if(ops.sbool(z3.Or(i < 0, i >= n)), 'IndexError')
-        el = ip.wrap(v.t[i], v.elem)
+        el = ip.wrap(z3.Select(v.arr, i), v.elem)
         if v.facts is not None:
             v.facts.on_read(ip, v, i, el)
         return el
@@ -633,8 +634,11 @@ def getitem(ip, v, k):
             return ip.call(Bound(v, FuncVal(m)), [k], {})
     if v is None:
         ctx.raise_exc('TypeError', "'NoneType' object is not subscriptable")
+    if isinstance(v, TypingGeneric):
+        args = k if isinstance(k, tuple) else (k,)
+        return GenericAlias(BuiltinType.get(v.origin), tuple(args))
     if isinstance(v, BuiltinType) or isinstance(v, Opaque):
-        return v      # typing generics in annotations
+        return v      # other generics in annotations
     if isinstance(v, (int, Fraction)) or (isinstance(v, Sym) and v.ty in ('int', 'bool', 'real')):
         ctx.raise_exc('TypeError', 'object is not subscriptable')
     return ops.getitem(v, k, ctx)
@@ -680,12 +684,10 @@ def setitem(ip, v, k, val):
         v.val = z3.Store(v.val, kt, ip.unwrap(val, v.vkind))
         return
     if isinstance(v, SymSeq):
-        n = z3.Length(v.t)
+        n = v.n
         i = ops.norm_index(ops.term(k, 'int'), n, ctx)
         ctx.raise_if(ops.sbool(z3.Or(i < 0, i >= n)), 'IndexError')
-        pre = z3.SubSeq(v.t, z3.IntVal(0), i)
-        post = z3.SubSeq(v.t, i + 1, n - i - 1)
-        v.t = z3.Concat(pre, z3.Unit(ip.unwrap(val, v.elem)), post)
+        v.arr = z3.Store(v.arr, i, ip.unwrap(val, v.elem))
         return
     if isinstance(v, ByteArray):
         cur = v.val
@@ -745,13 +747,31 @@ def list_extend(ip, lst, other):
         return
     if isinstance(lst, SymSeq):
         if isinstance(other, SymSeq):
-            lst.t = z3.Concat(lst.t, other.t)
+            j = z3.Int('j!ext')
+            a1, n1, a2 = lst.arr, lst.n, other.arr
+            lst.arr = z3.Lambda([j], z3.If(j < n1, z3.Select(a1, j), z3.Select(a2, j - n1)))
+            lst.n = n1 + other.n
             return
         items = ip.iter_concrete(other)
         for x in items:
-            lst.t = z3.Concat(lst.t, z3.Unit(ip.unwrap(x, lst.elem)))
+            m_list_append(ip, lst, x)
         return
     raise Unsupported('extend')
+
+
+def symseq_slice(ip, v, k):
+    if k.step is not None:
+        raise Unsupported('slice step')
+    n = v.n
+    lo, hi = ops.slice_bounds(k.start, k.stop, n)
+    lo_t = z3.IntVal(0) if lo is None else (z3.IntVal(lo) if isinstance(lo, int) else lo)
+    hi_t = n if hi is None else (z3.IntVal(hi) if isinstance(hi, int) else hi)
+    lo_c = z3.If(lo_t > n, n, lo_t)
+    hi_c = z3.If(hi_t > n, n, hi_t)
+    m = z3.If(hi_c > lo_c, hi_c - lo_c, z3.IntVal(0))
+    j = z3.Int('j!sl')
+    a0 = v.arr
+    return SymSeq(z3.Lambda([j], z3.Select(a0, j + lo_c)), z3.simplify(m), v.elem)
 
 
 # enumeration facts for list(dict): instantiated pointwise, no quantifier reaches the solver
@@ -759,41 +779,41 @@ class EnumFacts:
     """K = list(d): K enumerates dom(d) without repetition.
     witness(s) gives the index j_s with  s in dom <=> 0<=j_s<len(K) and K[j_s]=s ;
     every read K[i] instantiates  dom(K[i])  and  K[i]=s => i=j_s  for the witnesses asked so far."""
-    def __init__(self, dom, kkind, seq_t, size=None):
+    def __init__(self, dom, kkind, arr, n):
         self.dom = dom
         self.kkind = kkind
-        self.seq_t = seq_t
+        self.arr = arr
+        self.n = n
         self.witnesses = []      # (key term, index term)
         self.reads = []
-        self.size = size
 
     def witness(self, ip, key_t):
         for k, j in self.witnesses:
             if k.eq(key_t):
                 return j
         j = ip.ctx.fresh('j_wit', IntSort)
-        n = z3.Length(self.seq_t)
-        ip.ctx.assume(z3.Select(self.dom, key_t) == z3.And(j >= 0, j < n, self.seq_t[j] == key_t))
+        n = self.n
+        ip.ctx.assume(z3.Select(self.dom, key_t) == z3.And(j >= 0, j < n, z3.Select(self.arr, j) == key_t))
         self.witnesses.append((key_t, j))
         for i in self.reads:
-            ip.ctx.assume(z3.Implies(self.seq_t[i] == key_t, i == j))
+            ip.ctx.assume(z3.Implies(z3.Select(self.arr, i) == key_t, i == j))
         return j
 
     def on_read(self, ip, seq, i, el):
         self.reads.append(i)
-        ip.ctx.assume(z3.Select(self.dom, self.seq_t[i]))
+        ip.ctx.assume(z3.Select(self.dom, z3.Select(self.arr, i)))
         for k, j in self.witnesses:
-            ip.ctx.assume(z3.Implies(self.seq_t[i] == k, i == j))
+            ip.ctx.assume(z3.Implies(z3.Select(self.arr, i) == k, i == j))
 
 
 def symmap_keys(ip, m):
     used(ip, 'list(dict)/dict iteration: enumerates exactly the keys, each once (pointwise-instantiated contract)')
-    sort = z3.SeqSort(m.kkind.sort())
-    t = ip.ctx.fresh('keys', sort)
+    arr = ip.ctx.fresh('keys', z3.ArraySort(IntSort, m.kkind.sort()))
+    n = ip.ctx.fresh('nkeys', IntSort)
     if m.size is not None:
-        ip.ctx.assume(z3.Length(t) == m.size)
-    ip.ctx.assume(z3.Length(t) >= 0)
-    return SymSeq(t, m.kkind, EnumFacts(m.dom, m.kkind, t, m.size))
+        ip.ctx.assume(n == m.size)
+    ip.ctx.assume(n >= 0)
+    return SymSeq(arr, n, m.kkind, EnumFacts(m.dom, m.kkind, arr, n))
 
 
 def dictview_list(ip, view):
@@ -809,9 +829,8 @@ def dictview_list(ip, view):
 
 
 def sorted_symseq(ip, s):
-    t = ip.ctx.fresh('sorted', s.t.sort())
-    ip.ctx.assume(z3.Length(t) == z3.Length(s.t))
-    return SymSeq(t, s.elem, s.facts)
+    arr = ip.ctx.fresh('sorted', s.arr.sort())
+    return SymSeq(arr, s.n, s.elem, None)
 
 
 # ------------------------------------------------------------------------------------------ methods of builtin values
@@ -849,9 +868,8 @@ def m_list_append(ip, lst, x):
     if isinstance(lst, PyList):
         lst.items.append(x)
     else:
-        if not key_compatible(x, lst.elem) and lst.elem.ty != 'obj':
-            raise Unsupported('append of a value of another kind to a symbolic list')
-        lst.t = z3.Concat(lst.t, z3.Unit(ip.unwrap(x, lst.elem)))
+        lst.arr = z3.Store(lst.arr, lst.n, ip.unwrap(x, lst.elem))
+        lst.n = lst.n + 1
     return None
 
 
@@ -865,19 +883,22 @@ def m_list_pop(ip, lst, idx=-1):
             return lst.items.pop(c)
         except IndexError:
             ctx.raise_exc('IndexError', 'pop from empty list / index out of range')
-    n = z3.Length(lst.t)
+    n = lst.n
     i = ops.norm_index(ops.term(idx, 'int'), n, ctx)
     ctx.raise_if(ops.sbool(z3.Or(i < 0, i >= n)), 'IndexError')
-    el = ip.wrap(lst.t[i], lst.elem)
-    old = lst.t
-    # witnesses: old = pre ++ [x] ++ post
-    pre = ip.ctx.fresh('pre', old.sort())
-    post = ip.ctx.fresh('post', old.sort())
-    ip.ctx.assume(z3.And(old == z3.Concat(pre, z3.Unit(old[i]), post), z3.Length(pre) == i))
-    lst.t = z3.Concat(pre, post)
+    el = ip.wrap(z3.Select(lst.arr, i), lst.elem)
+    old = lst.copy()
+    j = z3.Int('j!pop')
+    a0 = lst.arr
+    ci = i.as_long() if z3.is_int_value(z3.simplify(i)) else None
+    if ci == 0:
+        lst.arr = z3.Lambda([j], z3.Select(a0, j + 1))
+    else:
+        lst.arr = z3.Lambda([j], z3.If(j < i, z3.Select(a0, j), z3.Select(a0, j + 1)))
+    lst.n = n - 1
     hk = ip.hooks.get('list.pop')
     if hk is not None:
-        hk(ip, lst, old, pre, post, i, el)
+        hk(ip, lst, old, i, el)
     return el
 
 
@@ -907,14 +928,14 @@ def m_list_index(ip, lst, x):
 def m_list_copy(ip, lst):
     if isinstance(lst, PyList):
         return PyList(lst.items)
-    return SymSeq(lst.t, lst.elem, lst.facts)
+    return lst.copy()
 
 
 def m_list_clear(ip, lst):
     if isinstance(lst, PyList):
         lst.items = []
     else:
-        lst.t = z3.Empty(lst.t.sort())
+        lst.n = z3.IntVal(0)
 
 
 def m_list_remove(ip, lst, x):
@@ -1295,8 +1316,46 @@ def enter_context(ip, v):
 
 # ------------------------------------------------------------------------------------------ class post-processing (metaclass models)
 
+def is_serializable_class(info):
+    return info.name != 'Serializable' and any(c.name == 'Serializable' and c.module.name == 'serializable' for c in info.mro()[1:])
+
+
+def eval_annotations(ip, info):
+    """cls.__annotations__ : evaluated from the class body, in source order (own class only, as in CPython)"""
+    from .interp import Frame
+    d = PyDict()
+    fr = Frame(None, info.module, info, name='<annotations %s>' % info.name)
+    for name, node in info.annotations.items():
+        try:
+            v = ip.eval(node, fr)
+        except (Unsupported, PyExc):
+            v = Opaque('annotation:' + ast.unparse(node), {'unsupported': True})
+        d.keys.append(name)
+        d.vals.append(v)
+    return d
+
+
 def class_postprocess(ip, info):
+    if is_serializable_class(info):
+        # model of the metaclass SerializableType.__new__ (trusted): _fields, __annotations__, type_id
+        fields = []
+        for name, vnode in info.attr_nodes:
+            val = info.class_attrs.get(name)
+            if name.startswith('_') or name == 'type_id' or isinstance(val, (Closure, FuncVal, Builtin)):
+                continue
+            if name not in fields:
+                fields.append(name)
+        info.class_attrs['_fields'] = tuple(fields)
+        info.class_attrs['__annotations__'] = eval_annotations(ip, info)
+        if 'type_id' not in info.class_attrs:
+            tid = z3.Int('type_id_' + info.name)
+            info.class_attrs['type_id'] = Sym(tid, 'int')
+            info.symbolic_type_id = tid
     if info.is_enum():
+        if 'type_id' not in info.class_attrs:
+            tid = z3.Int('type_id_' + info.name)
+            info.class_attrs['type_id'] = Sym(tid, 'int')
+            info.symbolic_type_id = tid
         used_names = []
         v2n = PyDict()
         n2v = PyDict()
@@ -1369,6 +1428,29 @@ def class_model(qualname):
     return _Registry.classes.get(qualname)
 
 
+class TypingGeneric:
+    def __init__(self, origin):
+        self.origin = origin
+
+
+def typing_get_origin(ip, t):
+    if isinstance(t, GenericAlias):
+        return t.origin
+    return None
+
+
+def typing_get_args(ip, t):
+    if isinstance(t, GenericAlias):
+        return t.args
+    return ()
+
+
+_Registry.modules['typing'] = {
+    'List': TypingGeneric('list'), 'Dict': TypingGeneric('dict'), 'Set': TypingGeneric('set'), 'Tuple': TypingGeneric('tuple'),
+    'get_origin': Builtin('typing.get_origin', typing_get_origin), 'get_args': Builtin('typing.get_args', typing_get_args),
+}
+
+
 def external_module(name):
     return ModuleVal(name)
 
@@ -1377,8 +1459,6 @@ def external_attr(modname, attr):
     d = _Registry.modules.get(modname)
     if d is not None and attr in d:
         return d[attr]
-    if modname in ('typing',):
-        return Opaque('typing.' + attr)
     return Opaque(modname + '.' + attr)
 
 
